@@ -8,6 +8,14 @@ props = [json.loads(l) for l in open(os.path.join(V, "properties.jsonl"))]
 DIFF = "bounded-exhaustive grammar/derivation enumeration executed on the real code, compared point by point with a reference interpreter"
 META = "bounded-exhaustive enumeration of identity-schema instantiations x documents executed on the real code; metamorphic oracle (implementation against itself)"
 claimed = {
+ "C03": ("bounded-exhaustive enumeration of byte strings, byte edits, Go values x placements x expressions and nesting families executed on the real code in worker processes; crash oracle (a dead worker is an observation)",
+         "all byte strings up to length 4 (5) over the scanner alphabet and the single-byte-edit neighbourhood of the corpus expressions through Compile/MustCompile/Search/Expression.Search; 84 Go values (all numeric kinds at their extremes, NaN/Inf, malformed json.Number, decimal specials, nil containers, foreign types) at 5 placements under ~700 expressions; 16 nesting families at depths 10^2..10^6 each in its own process",
+         "cyclic data and pad widths of astronomic magnitude are outside the claim; the known deep-nesting stack overflow (>= 10^6 levels) is recorded in known_findings.json",
+         "4/C03"),
+ "C08": ("bounded-exhaustive enumeration of faults x carrier contexts x documents (and fault pairs) through the three API routes on the real code; differential vs the reference's category + cross-route/data-independence invariants",
+         "every fault of the menu in every carrier context, every ordered pair of faults and every malformed string through Compile, Compile+Search and Search on every document incl. documents that make the faulty code unreachable: nil result, exactly one exported category, the category the reference names, static faults identical for every document, no static category from a compiled Expression over the valid spaces of C01/C02/C19",
+         "trusts the reference's category table; multi-fault expressions accept any category present",
+         "4/C08"),
  "C04": ("bounded-exhaustive enumeration of byte strings, whitespace placements, single-token edits and literal bodies given to the real Compile; differential against the reference recogniser, accepted strings evaluated against the reference on distinguishing documents",
          "all byte strings up to length 4 (5 thorough) over a 31-symbol alphabet, every token-gap whitespace placement and the complete single-token-edit neighbourhood of ~1500 valid expressions, and all sequences of literal-body fragments in the four quote syntaxes: accept/reject must match the reference grammar and accepted strings must mean what the reference says",
          "trusts the reference lexer/parser (appendix B), which abstains (UNSURE, counted) on whitespace inside [*] / .* / before a call parenthesis, let/in as identifiers, lone surrogates and control characters in quoted identifiers",
